@@ -75,6 +75,8 @@ var c15Paths = []string{
 	"k8s.io/api/core/v1", "k8s.io/api/apps/v1", "example.com/x/apis/foo/v1", "example.com/y/domain/foo",
 	"example.com/my-pkg", "example.com/my.pkg", "example.com/my_pkg", "example.com/mod/target/sub",
 	"example.com/mod", "a.b.c/d.e", "example.com/mod/template",
+	// one-element paths that are also the natural import name of a longer path
+	"example.com/q/x", "bar", "foo", "v1",
 }
 
 var c15Names = []string{"T", "Name", "List", "M", "P", "x", "T2", "_t"}
@@ -454,7 +456,7 @@ func TestC15(t *testing.T) {
 	r := ev.Begin(t, ev.Meta{
 		ID:    "C15",
 		Level: "exploration",
-		Rule: "reference trees from ref ::= [path '.'] ident ['[' ref {',' ref} ']'] with depth <= 4, width <= 4, paths from a pool of 22 " +
+		Rule: "reference trees from ref ::= [path '.'] ident ['[' ref {',' ref} ']'] with depth <= 4, width <= 4, paths from a pool of 26 " +
 			"(std, dotted hosts, vN, apis/domain, punctuation variants, the target package), printed by the harness and fed to ParseTypeRef, " +
 			"ParseRef, Ref, PkgImportPathAndExpose and snippet.ID/PkgExpose; non-trivial = depth >= 2 and >= 2 arguments at some level; " +
 			"distinct by JSON encoding; the enumerate sub lists every tree up to a node bound over 6 labels",
